@@ -131,6 +131,10 @@ pub fn gen_layout(p: &Prog, t: &mut Tape, style: Style) -> Vec<Gap> {
                             fixed,
                             trail: if t.chance(1, 4) { "  ".to_string() } else { String::new() },
                         },
+                        // blank lines in the middle of a statement
+                        9 if !line_start && t.chance(1, 3) => {
+                            Gap { nl: 2 + t.below(3) as u8, blanks: t.pick_str(INDENT_BLANKS).to_string(), fixed, trail: String::new() }
+                        }
                         _ => Gap { nl: 0, blanks: " ".to_string(), fixed, trail: String::new() },
                     },
                 }
